@@ -55,6 +55,7 @@ def pdir(style):
 def build(root, c):
     """the live root before the operation"""
     mkfile(os.path.join(root, "usr/share/p/b"), "old b\n")
+    os.symlink("b", os.path.join(root, "usr/share/p/current"))
     if not c["a_missing"]:
         mkfile(os.path.join(root, "usr/share/p/a"), "old a\n")
     if c["unlisted"]:
@@ -72,7 +73,7 @@ def build(root, c):
 
 def old_contents(c):
     d = pdir(OLD_STYLE[c["old_style"]])
-    ents = [fs.fsDir("/usr/share", **KW), fs.fsDir(d, **KW), fs.fsFile(d + "/a", **KW), fs.fsFile(d + "/b", **KW), fs.fsFile("/etc/p.conf", **KW)]
+    ents = [fs.fsDir("/usr/share", **KW), fs.fsDir(d, **KW), fs.fsFile(d + "/a", **KW), fs.fsFile(d + "/b", **KW), fs.fsSymlink(d + "/current", target="b", **KW), fs.fsFile("/etc/p.conf", **KW)]
     if SL[c["sl"]] != "absent":
         ents.append(fs.fsSymlink("/usr/share/p/sl", target="x", **KW))
     if c["lists_base"]:
@@ -118,6 +119,8 @@ class UnmergeHarness(Harness):
                     if ns != "not-reinstalled":
                         mkfile(os.path.join(img, nd.lstrip("/"), "b"), "NEW b\n")
                         new_locs["/usr/share/p/b"] = "NEW b\n"
+                        os.symlink("b", os.path.join(img, nd.lstrip("/"), "current"))
+                        new_locs["/usr/share/p/current"] = None
                     mkfile(os.path.join(img, nd.lstrip("/"), "c"), "NEW c\n")
                     new_locs["/usr/share/p/c"] = "NEW c\n"
                     new = contents.contentsSet(livefs.scan(img, offset=img))
@@ -136,7 +139,7 @@ class UnmergeHarness(Harness):
         if exc:
             problems.append(f"engine raised {exc}")
         # ---- the specification (physical paths below the root)
-        owned_files = {"/usr/share/p/a", "/usr/share/p/b", "/etc/p.conf"} | ({"/usr/share/p/sl"} if SL[c["sl"]] != "absent" else set())
+        owned_files = {"/usr/share/p/a", "/usr/share/p/b", "/usr/share/p/current", "/etc/p.conf"} | ({"/usr/share/p/sl"} if SL[c["sl"]] != "absent" else set())
         for p in sorted(owned_files):
             if p in new_locs:
                 continue
@@ -146,6 +149,9 @@ class UnmergeHarness(Harness):
             a = after.get(p)
             if a is None:
                 problems.append(f"{p}: installed by the new package, missing after the replace")
+            elif data is None:
+                if a.get("target") != "b":
+                    problems.append(f"{p}: installed by the new package as a symlink to b, is something else after the replace")
             elif a.get("data") != data:
                 problems.append(f"{p}: installed by the new package, has other content after the replace")
         # listed directories go only when empty (the statement does not demand that every empty one goes)
